@@ -94,4 +94,15 @@ def findLastN3 (c : MemoCfg) (m : Memo) (v : Val3) (pat : List Int) (n : Nat) (s
     | .ok ms => some (.ok (m', ms.take n))
     | .error p => some (.error p)
 
+/-- v1 / v2 `FindAll(s, pattern)` = `asIntSlice(find(s, pattern), Identity)` on a view with `size`
+digits: `s.FullIterator()` (pull iterator, eager, one digit of look-ahead) drained into the KMP
+automaton of v1/v2 (which resets on a position discontinuity); every position for the empty
+pattern. -/
+def findAll12 (c : MemoCfg) (m : Memo) (v : Val12) (pat : List Int) (size : Nat) :
+    Except Panic (Memo × List Int) :=
+  let r := spec12Iterate c m v.spec v.start.toNat (size + 1)
+  match matchesAllV1 pat.toArray (r.2.map fun (p, d) => ((p : Int), (d : Int))) with
+  | .ok ms => .ok (r.1, ms)
+  | .error p => .error p
+
 end Sqroot.Model
